@@ -394,6 +394,19 @@ pub struct SweepCfg {
     pub tree_cap: u64,
 }
 
+fn note_case(cfg: &SweepCfg, kind: &str, x: &[u32], bv: &[u32], perm: bool) {
+    let mode = match cfg.mode {
+        Mode::C06 => "C06",
+        Mode::C07 | Mode::C07Real => "C07",
+        Mode::C13 => "C13",
+    };
+    let form = if cfg.mode == Mode::C07Real { "process crash on a pool of" } else { "process crash" };
+    crate::util::crash_note(&format!(
+        "{{\"engine\":\"mc-join\",\"property\":\"{}\",\"mode\":\"{}\",\"kind\":\"{}\",\"form\":\"{}\",\"oracle\":\"process crash inside a join\",\"xmask\":{:?},\"bmask\":{:?},\"u\":{:?},\"perm\":{}}}",
+        mode, mode, kind, form, x, bv, cfg.u, perm
+    ));
+}
+
 /// All join forms over storage kind `T` paired with a plain bit set.
 pub fn sweep_storage<T: JoinKind>(cfg: &SweepCfg) -> (Stats, Vec<Fail>) {
     SWEEP_CTX.with(|c| *c.borrow_mut() = (cfg.u.clone(), false));
@@ -415,6 +428,7 @@ pub fn sweep_storage<T: JoinKind>(cfg: &SweepCfg) -> (Stats, Vec<Fail>) {
             if !both.is_empty() && both.len() < x.len() && both.len() < bv.len() {
                 stats.nontrivial += 1;
             }
+            note_case(cfg, name, &x, &bv, false);
             match cfg.mode {
                 Mode::C06 => forms_c06::<T>(&ctx, name, &x, &b, &bv, &both, &mut stats, &mut fails),
                 Mode::C07 => forms_c07::<T>(&ctx, name, &x, &b, &bv, &both, cfg.tree_cap, &mut stats, &mut fails),
@@ -473,6 +487,7 @@ pub fn sweep_storage_perm<T: JoinKind>(cfg: &SweepCfg) -> (Stats, Vec<Fail>) {
                 if !both.is_empty() && both.len() < x.len() && both.len() < bv.len() {
                     stats.nontrivial += 1;
                 }
+                note_case(cfg, name, &x, &bv, true);
                 match cfg.mode {
                     Mode::C06 => forms_c06::<T>(&ctx, name, &x, &b, &bv, &both, &mut stats, &mut fails),
                     Mode::C07 => forms_c07::<T>(&ctx, name, &x, &b, &bv, &both, cfg.tree_cap, &mut stats, &mut fails),
@@ -1503,9 +1518,12 @@ fn fail_to_finding(f: &Fail, engine_mode: &str, u: &[u32], perm: bool) -> Findin
 pub fn main() {
     let cli = Cli::parse();
     crate::util::install_quiet_hook();
-    if cli.replay.is_some() {
+    if let Some(path) = &cli.replay {
+        let prop = std::fs::read_to_string(path).ok().and_then(|t| serde_json::from_str::<serde_json::Value>(&t).ok()).and_then(|v| v["property"].as_str().map(|s| s.to_string())).unwrap_or_else(|| "C06".into());
+        crate::util::crash_guard_tagged(&cli.root, &prop, "replay-crash");
         replay(&cli);
     }
+    crate::util::crash_guard(&cli.root, &cli.property);
     let thorough = cli.thorough();
     let _ = POOL_SIZES.set(if thorough { vec![1, 2, 3, 8, 64] } else { vec![1, 3, 8] });
     let t0 = std::time::Instant::now();
@@ -1711,6 +1729,7 @@ pub fn main() {
 }
 
 fn replay(cli: &Cli) -> ! {
+    let _ = POOL_SIZES.set(vec![1, 3, 8]);
     let path = cli.replay.as_ref().unwrap();
     let txt = std::fs::read_to_string(path).unwrap_or_else(|e| machinery_error(&format!("cannot read replay: {e}")));
     let v: serde_json::Value = serde_json::from_str(&txt).unwrap_or_else(|e| machinery_error(&format!("bad replay: {e}")));
